@@ -50,6 +50,8 @@ type c10Scenario struct {
 	// 100 ms are already taken in the output directory (as another recorder sharing the
 	// directory would have taken them): StartRecording has to pick another name
 	TakenNamesAtFrame int
+	// the output directory and its constant-recordings folder are symbolic links
+	SymlinkedDirs bool
 }
 
 // takeNames creates empty files bearing the temporary recording names of the next ms milliseconds.
@@ -121,6 +123,11 @@ func c10Scenarios() []c10Scenario {
 	out = append(out, s10)
 	s11 := c10Scenario{Name: "S11", What: "the file names of the next 100 ms are already taken when the motion recording starts (name collision, another name is picked)", Cfg: base(), Cam: cam, Frames: c10Frames(cam, "ffffmmmffffffffff"), TakenNamesAtFrame: 5}
 	out = append(out, s11)
+	c12 := base()
+	c12.Constant = true
+	c12.MaxSecs = 2
+	s12 := c10Scenario{Name: "S12", What: "output directory and constant-recordings folder reached through symbolic links; constant recorder on, with a motion recording", Cfg: c12, Cam: cam, Frames: c10Frames(cam, "ffffmmmffffffffffffff"), SymlinkedDirs: true}
+	out = append(out, s12)
 	c9 := base()
 	c9.Throttle, c9.BucketSize, c9.MinRefill = true, "3s", "200ms"
 	c9.MaxSecs = 30
@@ -223,6 +230,7 @@ func TestVerif_C10Child(t *testing.T) {
 	if sc == nil {
 		t.Fatalf("unknown scenario %q", name)
 	}
+	prepareSymlinkedOut = sc.SymlinkedDirs
 	r, err := prepareConn(root, sc.Cfg, sc.Cam)
 	if err != nil {
 		t.Fatal(err)
@@ -437,7 +445,7 @@ func TestVerif_C10(t *testing.T) {
 	defer c.Finish()
 	scratch := vEnv("VERIF_SCRATCH", t.TempDir())
 	scs := c10Scenarios()
-	quickSet := map[string]bool{"S1": true, "S3": true, "S4": true, "S5": true, "S6": true, "S8": true, "S10": true, "S11": true}
+	quickSet := map[string]bool{"S1": true, "S3": true, "S4": true, "S5": true, "S6": true, "S8": true, "S10": true, "S11": true, "S12": true}
 	for si, sc := range scs {
 		if !c.Thorough() && !quickSet[sc.Name] {
 			continue
